@@ -40,6 +40,20 @@ def pairwise(fields, rnd, extra=0):
     return out, total
 
 
+def harness_panic(stderr, external):
+    """True when the process that died was the DRIVER by its own fault: the panicking goroutine's stack has no frame of the
+    repository's code.  (In-process, a panic of the served code kills the driver too - then its stack shows /repo frames;
+    against the external binary the driver exits 4 when the server stops answering and only panics by its own fault.)"""
+    i = stderr.find("goroutine ")
+    j = stderr.find("\n\n", i) if i >= 0 else -1
+    first = stderr[i:j if j > 0 else i + 4000] if i >= 0 else ""
+    own = ("panic:" in stderr or "fatal error:" in stderr) and "verifharness/" in first and "attestantio/dirk" not in first and "/repo/" not in first and not first.startswith("goroutine 0")
+    if external:
+        # the binary's own stderr is appended after the driver's message "fuzz: server stopped answering"
+        return own and "server stopped answering" not in stderr
+    return own
+
+
 def run(prop, tier, seed):
     t0 = time.time()
     wd = workdir(prop)
@@ -70,47 +84,63 @@ def run(prop, tier, seed):
                     n += 1
                     msgs.append(dict(id="m%d" % n, method=m, shape=row, seed=seed * 1000003 + n))
         rnd.shuffle(msgs)
-        crashes, done, answered = [], 0, {"response": 0, "error": 0}
-        todo = msgs
-        rounds = 0
-        while todo:
-            rounds += 1
-            evs, rc, err = apifamily.run_apidrv(dict(calls=[], fuzz=todo), wd, "fuzz%d" % rounds, timeout=3000)
-            begun = [e for e in evs if e["ev"] == "FuzzBegin"]
-            ended = {e["id"]: e for e in evs if e["ev"] == "FuzzEnd"}
-            for e in ended.values():
-                answered[e["answered"]] = answered.get(e["answered"], 0) + 1
-            done += len(ended)
-            if rc == 0:
-                break
-            if not begun:
-                raise Inconclusive("apidrv failed before sending anything: %s" % err[-400:])
-            last = begun[-1]
-            if last["id"] in ended and ended[last["id"]]["alive"]:
-                raise Inconclusive("apidrv exited %s although the last message was answered and the server alive: %s" % (rc, err[-300:]))
-            ids = [m_["id"] for m_ in todo]
-            upto = todo[:ids.index(last["id"]) + 1]
-            crashes.append((last, err[:6000] + "\n...\n" + err[-1500:], upto))
-            todo = todo[ids.index(last["id"]) + 1:]
-            if len(crashes) >= 5:
-                break
+        done, answered = 0, {"response": 0, "error": 0}
+        ncrashes = 0
         unreproduced = []
-        for ci, (last, err, upto) in enumerate(crashes):
-            # a counterexample counts only if it can be reproduced: first the message alone on a fresh server, then with its predecessors
-            msg = [m_ for m_ in msgs if m_["id"] == last["id"]][0]
-            plan = None
-            for cand in ([msg], upto[-50:], upto):
-                evs2, rc2, err2 = apifamily.run_apidrv(dict(calls=[], fuzz=cand), wd, "confirm%d" % ci, timeout=1500)
-                if rc2 != 0:
-                    plan, err = cand, err2[:6000] + "\n...\n" + err2[-1500:]
+
+        def sequential(target_name, dirk):
+            """All messages one after the other with a liveness probe after each, against the in-process service or the real binary."""
+            nonlocal done, ncrashes
+            crashes = []
+            todo = msgs
+            rounds = 0
+            while todo:
+                rounds += 1
+                evs, rc, err = apifamily.run_apidrv(dict(calls=[], fuzz=todo), wd, "fuzz%s%d" % (target_name, rounds), timeout=3000, dirk=dirk)
+                begun = [e for e in evs if e["ev"] == "FuzzBegin"]
+                ended = {e["id"]: e for e in evs if e["ev"] == "FuzzEnd"}
+                for e in ended.values():
+                    answered[e["answered"]] = answered.get(e["answered"], 0) + 1
+                done += len(ended)
+                if rc == 0:
                     break
-            if plan is None:
-                unreproduced.append(dict(message=msg, stderr=err[:1500]))
-                continue
-            panic = [l for l in err.splitlines() if l.startswith("panic:") or l.startswith("fatal error:") or "runtime error" in l]
-            verdict.violation("crash:%s:%s" % (last["method"], json.dumps(last["shape"], sort_keys=True)),
-                              "the daemon died / stopped answering while handling %s %s (reproduced with %d message(s)): %s" % (last["method"], last["shape"], len(plan), panic[:2] or err[-200:]),
-                              dict(messages=plan, stderr=err))
+                if not begun:
+                    raise Inconclusive("apidrv (%s) failed before sending anything: %s" % (target_name, err[-400:]))
+                if harness_panic(err, bool(dirk)):
+                    raise Inconclusive("the harness itself panicked (%s): %s" % (target_name, err[:600]))
+                last = begun[-1]
+                if last["id"] in ended and ended[last["id"]]["alive"]:
+                    raise Inconclusive("apidrv (%s) exited %s although the last message was answered and the server alive: %s" % (target_name, rc, err[-300:]))
+                ids = [m_["id"] for m_ in todo]
+                upto = todo[:ids.index(last["id"]) + 1]
+                crashes.append((last, err[:6000] + "\n...\n" + err[-1500:], upto))
+                todo = todo[ids.index(last["id"]) + 1:]
+                if len(crashes) >= 5:
+                    break
+            ncrashes += len(crashes)
+            for ci, (last, err, upto) in enumerate(crashes):
+                # a counterexample counts only if it can be reproduced: first the message alone on a fresh server, then with its predecessors
+                msg = [m_ for m_ in msgs if m_["id"] == last["id"]][0]
+                plan = None
+                for cand in ([msg], upto[-50:], upto):
+                    evs2, rc2, err2 = apifamily.run_apidrv(dict(calls=[], fuzz=cand), wd, "confirm%s%d" % (target_name, ci), timeout=1500, dirk=dirk)
+                    if rc2 != 0:
+                        if harness_panic(err2, bool(dirk)):
+                            raise Inconclusive("the harness itself panicked (%s): %s" % (target_name, err2[:600]))
+                        plan, err = cand, err2[:6000] + "\n...\n" + err2[-1500:]
+                        break
+                if plan is None:
+                    unreproduced.append(dict(message=msg, stderr=err[:1500]))
+                    continue
+                panic = [l for l in err.splitlines() if l.startswith("panic:") or l.startswith("fatal error:") or "runtime error" in l]
+                verdict.violation("crash:%s:%s" % (last["method"], json.dumps(last["shape"], sort_keys=True)),
+                                  "the daemon (%s) died / stopped answering while handling %s %s (reproduced with %d message(s)): %s" % (target_name, last["method"], last["shape"], len(plan), panic[:2] or err[-200:]),
+                                  dict(messages=plan, stderr=err, binary=bool(dirk)))
+
+        sequential("inprocess", None)
+        if not verdict.violations:
+            # the same messages against the SHIPPED PROGRAM (a real process: a panic anywhere, or a hang, is seen from outside)
+            sequential("binary", build_dirk())
         # phase 2: the same message classes CONCURRENTLY (16 request streams next to a stream that keeps creating accounts through
         # Dirk); afterwards a fresh client must still be answered ("... or to stop answering other requests")
         light = [m_ for m_ in msgs if m_["shape"].get("count") not in ("300",) and "len100000" not in m_["shape"].values() and not m_["method"].startswith("Dkg")]
@@ -118,7 +148,7 @@ def run(prop, tier, seed):
         storm = None
         hangs = []
         for attempt in range(3 if not verdict.violations else 0):     # a daemon that a single message kills needs no concurrent phase
-            evs_s, rc_s, err_s = apifamily.run_apidrv(storm_plan, wd, "storm%d" % attempt, timeout=1500)
+            evs_s, rc_s, err_s = apifamily.run_apidrv(storm_plan, wd, "storm%d" % attempt, timeout=1500, dirk=build_dirk() if attempt % 2 else None)
             st = [e for e in evs_s if e["ev"] == "Storm"]
             if rc_s == 0 and st:
                 storm = storm or st[0]
@@ -144,7 +174,7 @@ def run(prop, tier, seed):
                         "combinations; each is concretised (seeded byte fillings), sent over real TLS to the real gRPC service from an authenticated client (key-generation "
                         "messages from non-peers) and followed by a liveness probe from another client; distinct = distinct (method, shape) pairs",
                    samples=msgs[:3], per_method=stats, answered=answered, states=max(r.distinct, 1), transitions=sum(v["messages"] for v in stats.values()),
-                   traces_validated_against_impl=done, crashes=len(crashes), concurrent_phase=storm, exhaustive=False)
+                   traces_validated_against_impl=done, crashes=ncrashes, served_by=["in-process services/api/grpc", "the dirk binary"], concurrent_phase=storm, exhaustive=False)
         write_evidence(prop, tier, seed, "exploration", cov, time.time() - t0, violations=len(verdict.violations),
                        assumptions=["decides crash-freedom over the shape abstraction, not over all byte contents",
                                     "TLC is the keeper of the shape catalogue and of the pair-coverage obligation; the covering set is built greedily by the harness"])
